@@ -417,7 +417,10 @@ class ClientWebSocketResponse(Generic[_DecodeText]):
                 self._close_code = WSCloseCode.ABNORMAL_CLOSURE
                 raise
             except EofStream:
-                self._close_code = WSCloseCode.OK
+                if not self._closed:
+                    # do not overwrite the code of a session that a
+                    # concurrent close() has already closed
+                    self._close_code = WSCloseCode.OK
                 await self.close()
                 return WS_CLOSED_MESSAGE
             except ClientError:
